@@ -214,3 +214,62 @@ Proof.
   - intros [|id] Hid; [discriminate|cbn in Hid; lia].
   - vm_compute. repeat split. intros H; discriminate H.
 Qed.
+
+(* ---- LET-ABSTRACTION (proofs/C02Let.v) ----
+   In a configuration where x holds the cell-free value v that s evaluates to (the state after `x = s`),
+   C[x] and C[s] give the same outcome for every HEAD context C (the occurrence is the first thing the
+   context evaluates apart from literals / identifiers; once; not under a lambda or do-block):
+   x + e, t + x, x[e], x.f, -x, if x then .. else .., f(x, ..), [x, ..], output x, and nestings.
+   PARTIAL: the statement for arbitrary positions and several occurrences is kept as the Prop
+   [C02_let_abstraction_full]; what is missing is said in proofs/C02Let.v and notes/C02.md. *)
+Require Import Blots.proofs.C02Let.
+Theorem C02_let_abstraction_head_partial : forall release d x s st st1 fr v eA eB rA cA rB cB,
+  frames_lt (length st) fr = true ->
+  evalD release binop_impl builtin_impl d (st, fr) (EId x) = (Ok v, (st, fr)) ->
+  evalD release binop_impl builtin_impl d (st, fr) s = (Ok v, (st1, fr)) ->
+  cell_free v = true -> old_names_kept st st1 ->
+  hctx x s eA eB ->
+  evalD release binop_impl builtin_impl d (st, fr) eA = (rA, cA) ->
+  evalD release binop_impl builtin_impl d (st, fr) eB = (rB, cB) ->
+  osame rA rB.
+Proof. exact let_abstraction_head_inst. Qed.
+Check C02_let_abstraction_head_partial : forall release d x s st st1 fr v eA eB rA cA rB cB,
+  frames_lt (length st) fr = true ->
+  evalD release binop_impl builtin_impl d (st, fr) (EId x) = (Ok v, (st, fr)) ->
+  evalD release binop_impl builtin_impl d (st, fr) s = (Ok v, (st1, fr)) ->
+  cell_free v = true -> old_names_kept st st1 ->
+  hctx x s eA eB ->
+  evalD release binop_impl builtin_impl d (st, fr) eA = (rA, cA) ->
+  evalD release binop_impl builtin_impl d (st, fr) eB = (rB, cB) ->
+  osame rA rB.
+Print Assumptions C02_let_abstraction_head_partial.
+
+Definition C02_let_abstraction_full : Prop := let_abstraction_full_stmt.
+
+(* kept, not proved: the operator / built-in hypothesis for the FULL built-in dispatcher (EvalFull.v);
+   every theorem above that is generic in [ops_commute] holds for it as soon as this does *)
+Require Import Blots.EvalFull.
+Definition C02_ops_commute_full : Prop := ops_commute binop_impl builtin_full.
+
+(* the hypotheses of the let-abstraction theorem on a non-trivial program:
+   scope t = [3, 4], x = [4, 5] (the value of  t + 1); s = t + 1;  C = f(□, 2)[0] with f = (a, b) => a * b *)
+Definition lx_f : value := VLam 0 [AReq "a"; AReq "b"] (EBin Multiply (EId "a") (EId "b")) [].
+Definition lx_st : store := [Some "f"].
+Definition lx_fr : frames :=
+  [(FOwned, [("x", VList [VNum (num_of_Z 4); VNum (num_of_Z 5)]);
+             ("t", VList [VNum (num_of_Z 3); VNum (num_of_Z 4)]); ("f", lx_f)])].
+Definition lx_s : expr := EBin Add (EId "t") (ENum (num_of_Z 1)).
+Definition lx_C (h : expr) : expr := EAccess (ECall (EId "f") [h; ENum (num_of_Z 2)]) (ENum (num_of_Z 0)).
+Example C02_let_abstraction_example :
+  hctx "x" lx_s (lx_C (EId "x")) (lx_C lx_s) /\
+  frames_lt (length lx_st) lx_fr = true /\
+  evalD true binop_impl builtin_impl 4 (lx_st, lx_fr) (EId "x") =
+    (Ok (VList [VNum (num_of_Z 4); VNum (num_of_Z 5)]), (lx_st, lx_fr)) /\
+  evalD true binop_impl builtin_impl 4 (lx_st, lx_fr) lx_s =
+    (Ok (VList [VNum (num_of_Z 4); VNum (num_of_Z 5)]), (lx_st, lx_fr)) /\
+  cell_free (VList [VNum (num_of_Z 4); VNum (num_of_Z 5)]) = true /\
+  fst (evalD true binop_impl builtin_impl 4 (lx_st, lx_fr) (lx_C lx_s)) = Ok (VNum (num_of_Z 8)).
+Proof.
+  split; [unfold lx_C; apply H_accl; apply H_call; [exact I|apply H_hole]|].
+  vm_compute. repeat split.
+Qed.
